@@ -333,6 +333,11 @@ class TypeGen:
     def named_tuple(self, depth):
         r = self.rng
         name = self.fresh("NT")
+        if getattr(self, "allow_any", False) and r.random() < 0.08:
+            # collections.namedtuple: no annotations at all, every member is opaque
+            fields = [{"n": f"f{i}", "t": ("any",)} for i in range(r.randint(1, 3))]
+            self.fam.add({"k": "nt", "name": name, "fields": fields, "functional": False, "untyped": True}, self.value_maker)
+            return ("nt", name)
         fields = []
         defaults_started = False
         for i in range(r.randint(1, 3)):
